@@ -258,7 +258,7 @@ func (s *c08Side) wantBPs(cs *c08Case) (isNil bool, addrs []uint16) {
 func twinRun(cpu *z80.CPU, maxSteps int) (err error, steps int, ok bool) {
 	cpu.HALT = false
 	for steps < maxSteps {
-		cpu.Step()
+		liveStep(cpu)
 		steps++
 		if cpu.BreakPoints != nil {
 			if _, hit := cpu.BreakPoints[cpu.PC]; hit {
@@ -334,6 +334,7 @@ func c08One(a, b *c08Side, p *c08Prog, cs *c08Case) (d []string, totalSteps int)
 				ctx = context.WithValue(bgCtx, c08Key{}, 1)
 			}
 			defer release()
+			defer c08Watch(func() string { return fmt.Sprintf("Run of catalogue program %d (case %+v); its Step-driven twin ended after %d Steps", cs.Prog, *cs, steps) })()
 			errR = a.cpu.Run(ctx)
 		}()
 		if panR != nil {
@@ -762,6 +763,7 @@ func c08Placement(c *Ctx, progs []c08Prog) {
 				defer func() { pan = recover() }()
 				errT, _, fin = twinRun(twin, 5000)
 				if fin {
+					defer c08Watch(func() string { return fmt.Sprintf("Run of program %q on a CPU stored as %d-th element of a slice; its Step-driven twin ended", p.name, wi) })()
 					errR = cpu.Run(bgCtx)
 				}
 			}()
@@ -778,4 +780,13 @@ func c08Placement(c *Ctx, progs []c08Prog) {
 	}
 	c.Evaluations += n
 	c.Nontrivial += n
+}
+
+// c08Watch: a Run that spins without touching memory is invisible to the access-count watchdog; the wall monitor
+// of the framework reports it (two minutes for programs of a few dozen instructions) and ends the check.
+func c08Watch(desc func() string) func() {
+	if currentCtx == nil {
+		return func() {}
+	}
+	return currentCtx.WatchWall(desc)
 }
